@@ -200,14 +200,14 @@ def cases(tier, seed):
                 base = {"shape": list(shp), "types": "".join(tv), "kind": kind,
                         "split": split, "flat": flat, "spelling": spelling,
                         "nconst": nconst}
-                yield dict(base, strat="seq")
+                yield dict(base, strat="seq", again=(j % 2 == 0))
                 if kind == "str" and "i" in tv:
                     # the same sweep right after one over ==-equal values of
                     # other types (non-initial state of the process)
                     yield dict(base, kind="tstr", strat="seq", pre=True)
                     yield dict(base, kind="tstr", strat="submit", pre=True,
                                order=list(range(n))[::-1])
-                yield dict(base, strat="shuffle", seed=True)
+                yield dict(base, strat="shuffle", seed=True, again=(j % 2 == 1))
                 yield dict(base, strat="shuffle", seed=1 + (j % 32))
                 if j % 2:
                     # (a seed that is falsy)
@@ -326,6 +326,14 @@ def check_case(case):
         with xfn.CallLog():
             xyz.combo_runner(f, dict(zip(names, tw)),
                              constants=consts or None, verbosity=0)
+    if case.get("again"):
+        # the caller sweeps the very same combos / constants objects twice;
+        # the second sweep is the one judged
+        with xfn.CallLog():
+            try:
+                xyz.combo_runner(f, combos, **kw)
+            except Exception:
+                pass
     with xfn.CallLog() as log:
         try:
             got = xyz.combo_runner(f, combos, **kw)
